@@ -377,6 +377,49 @@ def h_manager(h, k):
     h.prove_eq("momentum falloff scales as lambda", s2.grid.momentumFalloffT, L * s1.grid.momentumFalloffT)
 
 
+def h_manager_scales(h, k):
+    """the variation scales handed to setupThermodynamicsHydrodynamics (they set the finite-difference
+    steps and the tracing step, and carry units) are the ones in force after EVERY set-up: a model
+    analysed again in another unit system gets the rescaled steps, not those of its first analysis"""
+    L = LAMBDAS[k]
+    import WallGo
+    import WallGo.manager as MG
+    from WallGo.effectivePotential import EffectivePotential
+
+    class Pot(EffectivePotential):
+        fieldCount = 2
+        effectivePotentialError = 1e-12
+
+        def evaluate(self, fields, temperature):
+            return 0.0
+    pot = Pot()
+    m = bare(MG.WallGoManager)
+    m.model = types.SimpleNamespace(fieldCount=2, getEffectivePotential=lambda: pot)
+    m.validatePhaseInput = lambda phaseInfo: None
+    m.initTemperatureRange = lambda: None
+    lim = types.SimpleNamespace(minPossibleTemperature=[0.0, False], maxPossibleTemperature=[1.0, False])
+    m.thermodynamics = types.SimpleNamespace(freeEnergyHigh=lim, freeEnergyLow=lim, setExtrapolate=lambda: None)
+    m._initHydrodynamics = lambda th: setattr(m, "hydrodynamics", types.SimpleNamespace(vJ=0.6))
+    loc = types.SimpleNamespace(numFields=lambda: 2)
+    Tn = h.real("Tn", 0.5, 500, default=100.0)
+    sT = h.real("scaleT", 0.1, 100, default=10.0)
+    sF = [h.real("scaleF0", 0.1, 100, default=10.0), h.real("scaleF1", 0.1, 100, default=30.0)]
+    for rep, fac in enumerate((1.0, L, 1.0)):
+        phase = types.SimpleNamespace(phaseLocation1=loc, phaseLocation2=loc, temperature=fac * Tn)
+        given = WallGo.VeffDerivativeSettings(
+            temperatureVariationScale=fac * sT,
+            fieldValueVariationScale=np.array([fac * sF[0], fac * sF[1]], dtype=object if h.symbolic else float))
+        m.setupThermodynamicsHydrodynamics(phase, given)
+        ds = pot.derivativeSettings
+        h.prove_eq(f"set-up {rep}: temperature variation scale in force = the one handed over",
+                   ds.temperatureVariationScale, fac * sT)
+        for i in range(2):
+            h.prove_eq(f"set-up {rep}: field variation scale {i} in force = the one handed over",
+                       np.asarray(ds.fieldValueVariationScale)[i], fac * sF[i])
+        comb = getattr(pot, "_EffectivePotential__combinedScales")
+        h.prove_eq(f"set-up {rep}: finite-difference scales follow (T entry)", np.asarray(comb)[-1], fac * sT)
+
+
 AX = [axioms.pow_axioms, pow_unit_axioms, axioms.tanh_axioms, axioms.exp_axioms]
 KQ = [0, 2]
 KT = [0, 1, 2, 3]
@@ -403,6 +446,8 @@ HARNESSES = [
                encodes=[HT.HydrodynamicsTemplateModel._findTm], random_validation=6),
     HarnessDef("minimiser-bounds-scaling", h_minimiser_bounds, [dict(k=k) for k in KQ], [dict(k=k) for k in KT], max_paths=6,
                timeout_s=30, encodes=[EOMM.EOM._intermediatePressureResults], random_validation=1),
+    HarnessDef("manager-variation-scales", h_manager_scales, [dict(k=0)], [dict(k=k) for k in KT], max_paths=10, timeout_s=30,
+               encodes=[], random_validation=1),
     HarnessDef("manager-lengths", h_manager, [dict(k=k) for k in KQ], [dict(k=k) for k in KT], max_paths=40, timeout_s=60,
                encodes=[], random_validation=1, feas_timeout_ms=200),
 ]
